@@ -1,6 +1,6 @@
 import LcModel.Prove.LemmasC10
 import LcModel.Cbmt.Witness
-import LcModel.Mmr.NoOverflow
+import LcModel.Mmr.NoAbort
 /-!
 # C10 — no light-client handler aborts on peer-supplied input
 
@@ -254,14 +254,22 @@ theorem witness_max_block_number :
 
 /-! ## `verify_mmr_proof` (called by SendLastStateProof, SendBlocksProof, SendTransactionsProof) -/
 
-/-- **the MMR library is never driven into an overflow.**  `MergeHeaderDigest::merge` adds two
-total difficulties with an aborting `+` and computes `end_number + 1` on `u64`; all of these
-numbers are the peer's.  For every last header, proof and header list, `verify_mmr_proof`
-(with the checked sums and the end-number bound of repair c68a262) returns or rejects without
-reaching either abort - the difficulty of every digest the library ever builds is bounded by the
-sum the wrapper has checked.  (Site 903, `pos - sibling_offset`, is not covered: its absence
-needs the theory of MMR positions; the position arithmetic is modelled on unbounded naturals and
-exercised by the differential `lcverif MMR` and the byte-level fuzzing.) -/
+/-- **`verify_mmr_proof` returns for every input.**  `MergeHeaderDigest::merge` adds two total
+difficulties with an aborting `+` and computes `end_number + 1` on `u64`, `calculate_peak_root`
+computes `pos - sibling_offset` on `u64`; all of these numbers are the peer's.  For every last
+header, proof and header list, `verify_mmr_proof` (with the checked sums and the end-number bound
+of repair c68a262) answers `Ok` or `InvalidProof`: the difficulty of every digest the library
+builds is bounded by the sum the wrapper has checked (`Mmr.Fits`), and every queue entry carries
+its true height, so a right child always has its left sibling (`Mmr.QInv`, the theory of MMR
+positions in `Mmr/Positions.lean`).  (The other `u64` operations on positions - `pos + 1`,
+`pos + parent_offset`, the shifts - stay below 2^63 by the wrapper's bound on the root's end
+number and are modelled on naturals.) -/
+theorem verify_mmr_proof_no_abort (valid : Bool) (lastNumber : Nat) (root : Mmr.Digest)
+    (proof : List Mmr.Digest) (headers : List Mmr.Hdr) :
+    ∃ b, Mmr.verifyMmrProof valid lastNumber root proof headers = .ok b :=
+  Mmr.verifyMmrProof_no_abort valid lastNumber root proof headers
+
+/-- the two aborting additions of `merge` in particular are never reached -/
 theorem verify_mmr_proof_no_merge_abort (valid : Bool) (lastNumber : Nat) (root : Mmr.Digest)
     (proof : List Mmr.Digest) (headers : List Mmr.Hdr) :
     Mmr.verifyMmrProof valid lastNumber root proof headers ≠ .error (.panic (.overflow 901)) ∧
